@@ -226,12 +226,12 @@ def load_known():
 
 def match_known(prop, signature):
     """A violation is a known finding iff every field of some open entry's signature equals
-    the corresponding field of the violation's signature."""
+    the corresponding field of the violation's signature (a list in the entry = any of these values)."""
     for f in load_known().get("findings", []):
         if f.get("property") != prop or f.get("status", "open") != "open":
             continue
         sig = f.get("signature", {})
-        if all(signature.get(k) == v for k, v in sig.items()):
+        if all((signature.get(k) in v) if isinstance(v, list) else (signature.get(k) == v) for k, v in sig.items()):
             return f
     return None
 
